@@ -34,6 +34,7 @@ import (
 //   rpc_sync_async_equal the asynchronous wire form is byte-identical to the synchronous one
 
 type wireRec struct {
+	path string
 	cmd string
 	raw []byte
 	msg proto.Message
